@@ -1186,8 +1186,18 @@ pub fn fam_resolve(_tier: Tier) -> Vec<Config> {
                 for c_delay in [None, Some(s5)] {
                     for tag in ["", "retry(1)", "retry.after(5s)"] {
                         for b_filter in [None, Some("@x"), Some("not @x")] {
-                            for c_filter in [None, Some("@x"), Some("not @x")] {
+                            for (c_filter, hooks) in [
+                                (None, 0u8),
+                                (Some("@x"), 0),
+                                (Some("not @x"), 0),
+                                // the builder's hook setters rebuild the runner: nothing may get lost
+                                (None, 1),
+                                (None, 2),
+                                (None, 3),
+                            ] {
                                 let mut c = base(String::new());
+                                c.before = hooks & 1 != 0;
+                                c.after = hooks & 2 != 0;
                                 let mut tags = vec!["x"];
                                 if !tag.is_empty() {
                                     tags.push(tag);
@@ -1208,7 +1218,7 @@ pub fn fam_resolve(_tier: Tier) -> Vec<Config> {
                                 c.bound = Some(1);
                                 c.max_execs = 300;
                                 c.name = format!(
-                                    "resolve/R|b{b_retry:?}|c{c_retry:?}|bd{b_delay:?}|cd{c_delay:?}|t{tag}|bf{b_filter:?}|cf{c_filter:?}"
+                                    "resolve/R|b{b_retry:?}|c{c_retry:?}|bd{b_delay:?}|cd{c_delay:?}|t{tag}|bf{b_filter:?}|cf{c_filter:?}|h{hooks}"
                                 );
                                 out.push(c);
                             }
